@@ -293,6 +293,7 @@ def run_impl(c):
     t.to_json(gb, direct_io=buf, creation_date=dt)
     dtxt = buf.getvalue()
     obs['source_unchanged'] = snap(t) == before
+    obs['text'] = txt
     try:
         pairs = json.loads(txt, object_pairs_hook=lambda p: ('obj', p))
         dpairs = json.loads(dtxt, object_pairs_hook=lambda p: ('obj', p))
@@ -309,6 +310,7 @@ def run_impl(c):
         return x
     doc, ddoc = plainify(pairs), plainify(dpairs)
     obs['doc'] = tag(doc)
+    obs['reparse'] = obs['doc']          # the model side is what the Coq reader makes of the model's text
     obs['keys'] = [k for k, _ in pairs[1]]
     obs['dkeys'] = [k for k, _ in dpairs[1]]
     obs['ddoc_same'] = tag(ddoc) == obs['doc']
@@ -398,7 +400,7 @@ def coder_of(c):
 
 def encode(c):
     if c.get('kind') == 'numbers':
-        return [[[], [], [], [], [], [0], [0], [0]], [], [], []]
+        return [[[], [], [], [], [], [0], [0], [0]], [], [], [], [], []]
     fc = coder_of(c)
     s = c['spec']
 
@@ -409,7 +411,24 @@ def encode(c):
     mat = [[fc.enc(float(v)) for v in row] for row in s['mat']] if nr and nc else [[] for _ in range(nr)]
     jt = [[cps(i) for i in s['oids']], [cps(i) for i in s['sids']], mat, md(s['omd']), md(s['smd']),
           enc_json(s['type'], fc), enc_json(c['generated_by'], fc), enc_json(case_date(c).isoformat(), fc)]
-    return [jt, cps(str(c['table_id'])), [cps(x) for x in case_strings(c)], [cps(r) for r in c['raws']]]
+    floats = []
+    for row in s['mat']:
+        floats += [float(v) for v in row]
+    floats_in(held_md(s['omd']), floats)
+    floats_in(held_md(s['smd']), floats)
+    ftbl, seen = [[0, cps('0.0')]], set()
+    for x in floats:
+        k = fc.enc(x)
+        if k and k not in seen:
+            seen.add(k)
+            ftbl.append([k, cps(repr(float(x)))])
+    mtbl = [[[0], cps('null')]]
+    for m in (s['omd'], s['smd']):
+        h = held_md(m)
+        if h is not None:
+            for real, img in zip(m, h):
+                mtbl.append([enc_json(img, fc), cps(biom_dumps(realise(real) if real else {}))])
+    return [jt, cps(str(c['table_id'])), [cps(x) for x in case_strings(c)], [cps(r) for r in c['raws']], ftbl, mtbl]
 
 
 def dec_table(tr, fc):
@@ -433,15 +452,17 @@ def decode(tree, c):
     if c.get('kind') == 'numbers':
         return {'numbers': c['n'], 'bad': []}
     fc = coder_of(c)
-    doc, keys, dkeys, closes, read, dread, dmp, lex = tree
+    doc, keys, dkeys, closes, read, dread, dmp, lex, text, reparse = tree
     obs = {'dumps': [uncps(x) for x in dmp],
            'lex': [None if not x else [uncps(x[0][0]), uncps(x[0][1])] for x in lex]}
     obs['source_unchanged'] = True
+    obs['text'] = uncps(text)
     if not closes:
         obs['wellformed'] = False
         return obs
     obs['wellformed'] = True
     obs['doc'] = dec_json(doc, fc)
+    obs['reparse'] = dec_json(reparse[0], fc) if reparse else None
     obs['keys'] = [uncps(k) for k in keys]
     obs['dkeys'] = [uncps(k) for k in dkeys]
     obs['ddoc_same'] = True
@@ -538,11 +559,25 @@ def gen_case(rng):
             'stored_zero': rng.random() < 0.3, 'date': date, 'raws': raws, 'split': [rng.randint(0, 400) for _ in range(rng.randint(0, 3))]}
 
 
+def gen_empty_axis(rng):
+    """a table with an empty axis: outside the 1..N x 1..M domain of the property text, inside 'any table'"""
+    c = gen_case(rng)
+    s = c['spec']
+    which = rng.choice(['obs', 'samp', 'both'])
+    if which in ('obs', 'both'):
+        s['oids'], s['omd'], s['mat'] = [], None, []
+    if which in ('samp', 'both'):
+        s['sids'], s['smd'], s['mat'] = [], None, [[] for _ in s['oids']]
+    s['layout'] = [rng.choice(['dense', 'csr', 'csc'])]
+    c['stored_zero'] = False
+    return c
+
+
 def gen(rng, tier):
     yield {'kind': 'numbers', 'seed': rng.randint(0, 10 ** 9), 'n': 20000}
     n = 600 if tier == 'quick' else 6000
-    for _ in range(n):
-        yield gen_case(rng)
+    for k in range(n):
+        yield gen_empty_axis(rng) if k % 20 == 19 else gen_case(rng)
 
 
 def nontrivial(c):
@@ -566,7 +601,7 @@ def classify(c):
     if lay:
         tags.append('repr:' + lay)
     if not in_domain(c):
-        tags.append('outside-domain:empty-axis')
+        tags.append('empty-axis')
     if all(v == 0 for row in s['mat'] for v in row):
         tags.append('all-zero')
     return tags
@@ -587,8 +622,6 @@ def oracle(c, obs):
                 fails.append('dumps(%r) reads back as %r' % (x, json.loads(d)))
         except ValueError:
             fails.append('dumps(%r) = %r is not JSON' % (x, d))
-    if not in_domain(c):
-        return fails[:3]            # 0 observations or 0 samples: outside the quantifier of C02
     if not obs.get('wellformed'):
         return fails + ['to_json output is not well-formed JSON']
     if not obs.get('source_unchanged'):
